@@ -170,7 +170,7 @@ func init() {
 		"(*sync.RWMutex).RLock":   nop,
 		"(*sync.RWMutex).RUnlock": nop,
 		"(*sync.Once).Do":         onceDo,
-		"sort.Slice":              sortSlice,
+		"sort.Slice":              sortSliceUnstable,
 		"sort.SliceStable":        sortSlice,
 		"sort.Strings":            sortStrings,
 		"os.Getenv":               func(fr *frame, a []value) value { return "" },
@@ -435,6 +435,32 @@ func onceDo(fr *frame, a []value) value {
 	return nil
 }
 
+// hostFunc is a function value implemented by the engine (callable from interpreted code).
+type hostFunc func(args []value) value
+
+// sortSliceUnstable runs Go's own pattern-defeating quicksort (sort.pdqsort_func, interpreted from source) with the
+// caller's less closure, so that sort.Slice has exactly the (unstable) behaviour of the real library.
+func sortSliceUnstable(fr *frame, a []value) value {
+	sl := a[0].(iface).v.([]value)
+	n := len(sl)
+	sp := fr.i.prog.ImportedPackage("sort")
+	if sp == nil || sp.Func("pdqsort_func") == nil {
+		return sortSlice(fr, a)
+	}
+	swap := hostFunc(func(args []value) value {
+		i, j := int(asInt64(args[0])), int(asInt64(args[1]))
+		sl[i], sl[j] = sl[j], sl[i]
+		return nil
+	})
+	limit := 0
+	for x := n; x > 0; x >>= 1 {
+		limit++
+	}
+	ls := structure{a[1], swap}
+	call(fr.i, fr, token.NoPos, sp.Func("pdqsort_func"), []value{ls, 0, n, limit})
+	return nil
+}
+
 func sortSlice(fr *frame, a []value) value {
 	sl := a[0].(iface).v.([]value)
 	less := a[1]
@@ -523,7 +549,16 @@ func fmtArg(fr *frame, v value, verb byte) value {
 	case float32:
 		return strconv.FormatFloat(float64(x), 'g', -1, 32)
 	case symv:
-		panic(pathUnsupported{"formatting a symbolic scalar"})
+		if verb == 'c' && x.w > 0 {
+			if !E.Decide(mk(0, "bvult", x, symv{x.w, bvLit(0x80, x.w)})) {
+				return "?"
+			}
+			if x.w == 8 {
+				return symstr{[]value{x}}
+			}
+			return symstr{[]value{E.name(symv{8, fmt.Sprintf("((_ extract 7 0) %s)", x.t)})}}
+		}
+		return "<symbolic>" // only ever used in message texts; never parsed back by the code under test
 	case *value:
 		if x != nil {
 			if bv, ok := (*x).(bigv); ok {
